@@ -69,7 +69,7 @@ def dead_scope(g, log_paths, files):
     used = set()
     for e in g['edges']:
         used.update(all_outs(e))
-        used.update(e['exp'] + e['imp'] + e['oo'])
+        used.update(e['exp'] + e['imp'] + e['oo'] + e.get('vals', []))
         if e.get('dd'):
             used.add(e['dd'])
             if e['dd'] in files:
@@ -101,19 +101,22 @@ def run_case(probe, g, ops, spec):
         mode = spec['mode']
         # ---- cleandead situations: statements removed / turned into sources between builds
         if mode == 'dead':
-            removable = [e for e in g['edges'] if not any(o in x.get('vals', []) for x in g['edges'] for o in all_outs(e))
-                         and not e.get('is_dd_producer') and not any(x.get('dd') in all_outs(e) for x in g['edges'])]
+            # (a removed statement's output may still be named as a validation by a remaining one: it then still appears in
+            # the graph, as a plain file)
+            removable = [e for e in g['edges'] if not e.get('is_dd_producer') and not any(x.get('dd') in all_outs(e) for x in g['edges'])]
             victims = [removable[i % len(removable)] for i in spec['sel'][:2]] if removable else []
             for v in victims:
                 if v in g['edges']:
                     g['edges'].remove(v)
                     # its outputs become plain files; those still consumed by others are sources now
                     for o in all_outs(v):
-                        if any(o in x['exp'] + x['imp'] + x['oo'] for x in g['edges']) and o not in g['srcs']:
+                        if any(o in x['exp'] + x['imp'] + x['oo'] + x.get('vals', []) for x in g['edges']) and o not in g['srcs']:
                             g['srcs'].append(o)
+                            if any(o in x.get('vals', []) for x in g['edges']):
+                                labels.add('former_output_still_named_as_validation')
                     labels.add('statement_removed')
             former = set(o for v in victims for o in all_outs(v))
-            g['srcs'] = [x for x in g['srcs'] if x not in former or any(x in y['exp'] + y['imp'] + y['oo'] for y in g['edges'])]
+            g['srcs'] = [x for x in g['srcs'] if x not in former or any(x in y['exp'] + y['imp'] + y['oo'] + y.get('vals', []) for y in g['edges'])]
             # dyndep texts must match the remaining statements
             for dd, info in g.get('dd_files', {}).items():
                 if not info['produced'] and dd in sim.files:
@@ -145,10 +148,19 @@ def run_case(probe, g, ops, spec):
             if not names:
                 return None, labels
         elif mode == 'rules':
-            rn = sorted(set(rule_name(e) for e in g['edges'] if not e['phony']))
+            rn = sorted(set(rule_name(e) for e in g['edges']))       # 'phony' is a rule name like any other
             names = sorted(set(rn[i % len(rn)] for i in spec['sel'][:2])) if rn else []
             if not names:
                 return None, labels
+            if 'phony' in names:
+                # files that carry the name of a phony statement exist (`build src: phony` declares a source; an alias may
+                # share its name with a file or directory): they are not built files
+                for e in g['edges']:
+                    if e['phony']:
+                        for o in all_outs(e):
+                            sim.files.setdefault(o, {'c': 'a file named like a phony statement', 'm': sim.now + 4})
+                before = copy.deepcopy(sim.files)
+                labels.add('rule_phony_named')
         files = dict(sim.files)
         files['build.ninja'] = {'c': graphs.manifest(g), 'm': 1}
         req = dict(kind='clean', files=files, dirs=sim.dirs, now=sim.now + 5, logdir=sim.logdir, mode=mode, names=names,
@@ -202,7 +214,7 @@ def run_case(probe, g, ops, spec):
         failed_left = [k_ for k_ in sim.model.failed if any(o in sim.files for o in all_outs(sim.edge_by_key(k_) or {'outs': [], 'iouts': []}))]
         if failed_left and mode != 'dead':
             labels.add('post_clean_rebuild_not_judged_failed_output_present')
-        if mode != 'dead' and not failed_left:
+        if mode != 'dead' and not failed_left and 'rule_phony_named' not in labels:
             for p in got:
                 sim.files.pop(p, None)
             sim.files.pop('stray.txt', None)
@@ -230,7 +242,7 @@ def e2e_dead_case(root, g, sel, prep, dry):
         if not sim.establish():
             return None, labels
         g = sim.g
-        removable = [e for e in g['edges'] if not e['phony'] and not any(o in x.get('vals', []) for x in g['edges'] for o in all_outs(e))]
+        removable = [e for e in g['edges'] if not e['phony']]
         if not removable:
             return None, labels
         log_before = set(sim.read_log())
@@ -241,14 +253,13 @@ def e2e_dead_case(root, g, sel, prep, dry):
                 g['edges'].remove(v)
                 victims.append(v)
                 for o in all_outs(v):
-                    if any(o in x['exp'] + x['imp'] + x['oo'] for x in g['edges']) and o not in g['srcs']:
+                    if any(o in x['exp'] + x['imp'] + x['oo'] + x.get('vals', []) for x in g['edges']) and o not in g['srcs']:
                         g['srcs'].append(o)
+                        if any(o in x.get('vals', []) for x in g['edges']):
+                            labels.add('former_output_still_named_as_validation')
         former = set(o for v in victims for o in all_outs(v))
-        # a former output counts as a source only while a remaining statement still consumes it
-        g['srcs'] = [x for x in g['srcs'] if x not in former or any(x in y['exp'] + y['imp'] + y['oo'] for y in g['edges'])]
-        # validations naming a removed output would make the manifest invalid: drop them
-        for x in g['edges']:
-            x['vals'] = [v for v in x.get('vals', []) if v not in former or v in g['srcs']]
+        # a former output counts as a source only while a remaining statement still consumes it or names it as a validation
+        g['srcs'] = [x for x in g['srcs'] if x not in former or any(x in y['exp'] + y['imp'] + y['oo'] + y.get('vals', []) for y in g['edges'])]
         open(sim.path("build.ninja"), "w").write(graphs.real_manifest(g, sim.vtool))
         env = dict(os.environ, TERM="dumb")
         env.pop("MAKEFLAGS", None)
